@@ -63,7 +63,7 @@ def Res.errStr {α} : Res α → Str
 @[simp] theorem Res.errStr_ok {α} (a : α) : (Res.ok a).errStr = Str.empty := rfl
 
 /-- `Option::unwrap` on a value the code has just made `Some` (the `None` case is a panic site of C04's model) -/
-def unwrapD (o : Option Nat) : Nat := o.getD 0
+def unwrapD {α : Type} [Inhabited α] (o : Option α) : α := o.getD default
 
 /-- `&s[lo .. lo+n]` -/
 def slice (bs : Bytes) (lo n : Nat) : Bytes := (bs.drop lo).take n
